@@ -478,6 +478,40 @@ func c18(p *core.Program, r *core.Report) {
 	if fn := mustFn(p, r, r1, wktRel, "(*Encoder).writeCoord"); fn != nil {
 		numberFormatRule(p, r, r1, fn, "FormatFloat", "maxDecimalDigits")
 	}
+	const r1b = "wkt-members-same-encoder"
+	r.Rule(r1b, "no method of wkt.Encoder constructs another encoder on the way (no call of wkt.Marshal or wkt.NewEncoder from a method of Encoder): members of a collection are written by recursion on the same *Encoder, so the digit limit applies to every nested geometry, at any depth", 1)
+	{
+		var fresh []string
+		rec := 0
+		for _, fn := range pkgFuncs(p, wktRel) {
+			root := topLevel(fn)
+			if root.Signature.Recv() == nil || !strings.Contains(root.Signature.Recv().Type().String(), "Encoder") {
+				continue
+			}
+			for _, c := range eng.Calls(fn) {
+				cal := eng.StaticCallee(c)
+				if cal == nil || core.FnPkgPath(cal) != mod+"/"+wktRel {
+					continue
+				}
+				if cal.Signature.Recv() == nil && (cal.Name() == "Marshal" || cal.Name() == "NewEncoder") {
+					fresh = append(fresh, short(fn)+" -> "+cal.Name()+" at "+p.Pos(c.Pos()))
+				}
+				// a member handed to a method of the same encoder (a method with a geom.T parameter)
+				if cal.Signature.Recv() != nil && strings.Contains(cal.Signature.Recv().Type().String(), "Encoder") && len(c.Common().Args) > 0 && c.Common().Args[0] == ssa.Value(root.Params[0]) && fn != cal || cal == root {
+					takesGeom := false
+					for _, prm := range cal.Params {
+						if n, ok := prm.Type().(*types.Named); ok && n.Obj().Name() == "T" {
+							takesGeom = true
+						}
+					}
+					if takesGeom && len(c.Common().Args) > 0 && c.Common().Args[0] == ssa.Value(root.Params[0]) {
+						rec++
+					}
+				}
+			}
+		}
+		r.Check(len(fresh) == 0 && rec >= 1, r1b, wktRel+".(*Encoder)", "encoding/wkt/encode.go", true, fmt.Sprintf("%d recursive call(s) on the same encoder, no fresh encoder", rec), fmt.Sprintf("a method of Encoder encodes nested geometries with a fresh default encoder %v (recursive calls on the same encoder: %d): the decimal-digit limit is dropped for members of a collection", fresh, rec))
+	}
 	const r2 = "geojson-digits"
 	r.Rule(r2, "GeoJSON: nestedFloat64WithMaxDecimalDigits.marshalJSON formats every float64 leaf with strconv.AppendFloat(buf, x, 'f', c.maxDecimalDigits, 64) and trims zeros-then-point only when d > 0; it recurses into every slice element and emits '[' ',' ']' so nesting and ordinate count are unchanged", 4)
 	const rel = "encoding/geojson"
